@@ -47,7 +47,9 @@ fn with_env(lam_cnt: usize, env: Env, term: Term<NamedDeBruijn>) -> Term<NamedDe
         Term::Var(name) => {
             let index: usize = name.index.into();
 
-            if lam_cnt >= index {
+            // A variable bound inside the term, or pointing beyond the captured
+            // environment (i.e. free), is left untouched.
+            if lam_cnt >= index || index - lam_cnt > env.len() {
                 Term::Var(name)
             } else {
                 env.get::<usize>(env.len() - (index - lam_cnt))
